@@ -4003,16 +4003,22 @@ class EntityMeta(type):
             entity._table_options_ = {}
     def _get_pk_columns_(entity):
         if entity._pk_columns_ is not None: return entity._pk_columns_
-        pk_columns = []
-        pk_converters = []
-        pk_paths = []
-        for attr in entity._pk_attrs_:
-            attr_columns = attr.get_columns()
-            attr_col_paths = attr.col_paths
-            attr.pk_columns_offset = len(pk_columns)
-            pk_columns.extend(attr_columns)
-            pk_converters.extend(attr.converters)
-            pk_paths.extend(attr_col_paths)
+        if entity.__dict__.get('_pk_columns_in_progress_'): throw(ERDiagramError,
+            'Primary key of entity %s depends on the primary key of the same entity' % entity.__name__)
+        entity._pk_columns_in_progress_ = True
+        try:
+            pk_columns = []
+            pk_converters = []
+            pk_paths = []
+            for attr in entity._pk_attrs_:
+                attr_columns = attr.get_columns()
+                attr_col_paths = attr.col_paths
+                attr.pk_columns_offset = len(pk_columns)
+                pk_columns.extend(attr_columns)
+                pk_converters.extend(attr.converters)
+                pk_paths.extend(attr_col_paths)
+        finally:
+            entity._pk_columns_in_progress_ = False
         entity._pk_columns_ = pk_columns
         entity._pk_converters_ = pk_converters
         entity._pk_nones_ = (None,) * len(pk_columns)
